@@ -42,10 +42,15 @@ func New(filename string, src interface{}) *Parser {
 		log.Fatalln(err)
 	}
 
+	s, err := scanner.NewScanner(abs, src)
 	p := &Parser{
-		s:    scanner.MustNewScanner(abs, src),
+		s:    s,
 		api:  &ast.AST{Filename: abs},
 		node: make(map[token.Token]*ast.TokenNode),
+	}
+	if err != nil {
+		// e.g. an empty source: reported by CheckErrors instead of ending the process
+		p.errors = append(p.errors, err)
 	}
 
 	return p
@@ -1572,6 +1577,10 @@ func (p *Parser) expectIdentError(tok token.Token, expected ...interface{}) {
 }
 
 func (p *Parser) init() bool {
+	if p.s == nil {
+		return false
+	}
+
 	if !p.nextToken() {
 		return false
 	}
